@@ -30,7 +30,7 @@ Edges == IF Q THEN <<63, 64, 65, 255, 256, 257, 513>>
 \* columns of the large Gauss matrices
 Sizes == IF Q THEN <<1000, 2000, 3000>> ELSE <<1000, 2000, 3000, 4500, 6000>>
 \* rows of the Lanczos matrices (the library itself switches to Lanczos above 5000 rows)
-LSizes == IF Q THEN <<128, 200, 520, 1000, 2000, 3000>> ELSE <<128, 200, 520, 1000, 2000, 3000, 5200, 6000>>
+LSizes == IF Q THEN <<128, 200, 520, 1000, 3000>> ELSE <<128, 200, 520, 1000, 2000, 3000, 5200, 6000>>
 \* shapes per size in the large families
 T == IF Q THEN 4 ELSE 8
 LT == IF Q THEN 2 ELSE 6
@@ -61,7 +61,7 @@ Hash(a, b, c) == Lcg((Lcg((Lcg(a % 65536) + b) % 65536) + c) % 65536) \div 256
 \* tall: 10% more rows than columns (the kernel is what was planted)
 LargeShape(i, t) ==
   LET n == Sizes[i]
-      wide == Hash(i, t, 1) % 2 = 0
+      wide == Hash(i, t, 1) % 3 # 0
       x == (Hash(i, t, 3) % 2) + 1
   IN Sh("gauss", IF wide THEN n - 10 ELSE n + n \div 10, n, Coranks[((i + t) % 4) + 1],
         Profiles[(Hash(i, t, 2) % 2) + 1], BigExtras[x][1], BigExtras[x][2])
@@ -73,9 +73,9 @@ LProfiles == <<"sieve", "uniform", "dense">>
 LCols(n, a) == CASE a = 1 -> n + 10 [] a = 2 -> n + 100 [] a = 3 -> n - 8
 LanczosShape(i, t) ==
   LET n == LSizes[i]
-      p == (Hash(i, t, 5) % 3) + 1
+      p == ((i + t) % 3) + 1
       x == (Hash(i, t, 6) % 2) + 1
-  IN Sh("lanczos", n, LCols(n, (Hash(i, t, 4) % 3) + 1), LCoranks[((i + t) % 4) + 1],
+  IN Sh("lanczos", n, LCols(n, (Hash(i, t, 4) % 3) + 1), LCoranks[((i + t + 2) % 4) + 1],
         LProfiles[IF p = 3 /\ n > 520 THEN 1 ELSE p],      \* dense only where the trace stays small
         BigExtras[x][1], BigExtras[x][2])
 Lanczos == {LanczosShape(i, t) : i \in 1..Len(LSizes), t \in 1..LT}
